@@ -27,7 +27,7 @@ def G(pOf, nf, **kw):
 
 
 def make_groups(rng):
-    t = rng.choice(["m2x3", "m2x3", "v2x3", "m3p", "m2x2", "ignall", "s0v", "rect"])
+    t = rng.choice(["m2x3", "m2x3", "v2x3", "m3p", "m2x2", "ignall", "s0v", "rect", "many", "many", "m6p", "rem1"])
     gs = [family.draw_group(rng, t, filt=rng.random() < 0.8, mom=rng.random() < 0.8)]
     if rng.random() < 0.35:
         gs.append(family.draw_group(rng, rng.choice(["m2x2", "v2x3", "t3"])))
@@ -82,6 +82,9 @@ def run(ctx):
                                  3, (), ())
     sp.run_rt(ctx, tasks, owns, "mask_mechanism", control)
     sp.run_histories(ctx, rng, 24 if quick else 300, make_groups, 25 if quick else 40, ("fail",), ("mom", "b1", "wd"), owns, "mask_mechanism_long")
+    # many distinct presence patterns in one run (six parameters: 64 patterns), long enough to return to early patterns after dozens of others
+    sp.run_histories(ctx, rng, 6 if quick else 60, lambda r: [family.draw_group(r, "m6p", filt=True, mom=True)], 90 if quick else 150, (), (), owns,
+                     "mask_mechanism_many_patterns", flip=0.9)
     sp.run_repo_tests(ctx, owns, "mask_mechanism_repo_tests")
     ctx.put("distinct_nontrivial", sp.nontrivial_count(tasks))
     ctx.put("rule", "MC: every gradient-presence history x hyper schedule (momentum / beta1 set to 0 and back) x fault script within the "
